@@ -14,8 +14,8 @@ from pydbml.classes import Column, Enum  # noqa: E402
 PID = 'C05'
 THEOREMS = ['PyDBML.C05.build_refs_in_range', 'PyDBML.C05.locateTable_in_range', 'PyDBML.C05.locateCols_in_range',
             'PyDBML.C05.findKey_in_range',
-            'PyDBML.C05.resolveType_sound', 'PyDBML.C05.resolveType_complete']
-MODULES = ['PyDBMLProofs.Props.C05']
+            'PyDBML.C05.resolveType_sound', 'PyDBML.C05.resolveType_complete', 'PyDBML.C05.locateCols_sound', 'PyDBML.C05.buildRef_sound']
+MODULES = ['PyDBMLProofs.Props.C05', 'PyDBMLProofs.Props.C05Link']
 
 
 def isin(x, lst):
